@@ -213,7 +213,20 @@ func genStream(r *gen.Rand, cfg gen.ProgCfg, files map[string]string, maxMerges 
 		base, pl := cfg.Program(r)
 		planted = append(planted, pl...)
 		ext := r.Pick("yaml", "json")
-		if s, ok := gen.StreamText(ext, []any{base}); ok {
+		fileDocs := []any{base}
+		if r.Chance(0.08) {
+			// a stream of many documents behind the directive-laden first one
+			// (more than any batch, pool or "parallel above N" threshold)
+			if bm, ok := base.(map[string]any); ok {
+				bm["id"] = "f0"
+			}
+			nDocs := gen.PickAny(r, []int{17, 64, 70, 130, 300})
+			for k := 1; k < nDocs; k++ {
+				fileDocs = append(fileDocs, map[string]any{"id": fmt.Sprintf("f%d", k), "v": k})
+			}
+			planted = append(planted, "many-documents")
+		}
+		if s, ok := gen.StreamText(ext, fileDocs); ok {
 			esc := r.Chance(0.3) // the same documents, every "$" spelled as an escape sequence
 			if esc {
 				s = gen.EscapeDollars(ext, s)
@@ -222,6 +235,8 @@ func genStream(r *gen.Rand, cfg gen.ProgCfg, files map[string]string, maxMerges 
 			patch := child.Child(r, wire.Clone(base))
 			if r.Chance(0.5) {
 				patch["$match"] = nil // keep file documents apart from the stream
+			} else if len(fileDocs) > 1 {
+				patch["$match"] = map[string]any{"id": "f0"}
 			}
 			if s2, ok := gen.StreamText("yaml", []any{patch}); ok {
 				if esc {
